@@ -1,5 +1,5 @@
 /-
-  C05 on tree.go's `minimum()` / `maximum()` AS REGENERATED FROM THE SOURCE on every run (`Gen/NodeOps.lean`:
+  C05 on tree.go's `minimum()` / `maximum()` AS REGENERATED FROM THE SOURCE on every run (`Gen/WalkOps.lean`:
   `minimum_step`, `maximum_step` – the switch of the walk: `children[0]`, `children[childrenLen-1]` with the
   subtraction on a `uint8`, the upward / downward scans over the 256 index bytes of a node48 and the 256 slots of a
   node256).  Until this module the per-class steps were hand-modelled (`Raw.minChild`/`Raw.maxChild`) and tied to the
@@ -14,7 +14,7 @@
 -/
 import ArtVerif.Proofs.GenWalk
 namespace ArtVerif.C05NodeOps
-open ArtVerif ArtVerif.Gen ArtVerif.Gen.NodeOps ArtVerif.GoNode ArtVerif.Raw ArtVerif.GenNodeOps ArtVerif.GenWalk
+open ArtVerif ArtVerif.Gen ArtVerif.Gen.WalkOps ArtVerif.GoNode ArtVerif.Raw ArtVerif.GenNodeOps ArtVerif.GenWalk
 variable {C : Type}
 
 theorem len_pos_of_abs (r : Raw C) (hinv : r.inv = true) (hne : r.abs ≠ []) : 0 < r.len ∨ r.cls = 256 := by
